@@ -13,7 +13,7 @@ CONSTANTS
   BigSize = 4
   SetFees <- SetFeesMC
 INIT Init
-NEXT Next
+NEXT NextMut
 VIEW View0
 INVARIANTS TypeOK RefsOK NaiveOK SnapOK OrderingSatisfiable
 PROPERTIES StagingOK TrimOK RemoveOK
